@@ -142,9 +142,9 @@ func (p *rt) SetLogger(logger px.Logger) {
 
 func (p *rt) SystemLoader() px.Loader {
 	p.lock.Lock()
-	p.ensureSystemLoader()
+	l := p.ensureSystemLoader()
 	p.lock.Unlock()
-	return p.systemLoader
+	return l
 }
 
 // not exported, provides unprotected access to shared object
